@@ -1048,9 +1048,16 @@ func (x *run) finalChecks() {
 			v.order[id] = opIds(b)
 			v.snaps[id] = model.FromSnapshot(b.Compile())
 			if x.on("C03") {
-				again, err := x.gbRead(rs, id)
-				if err != nil || !eq(opIds(again), v.order[id]) {
-					x.violate("reread-differs", "bug %s on %s: second read gives %v (err %v), first %s", id[:7], rs.r.Name, again, err, sh(v.order[id]))
+				for k := 0; k < 4; k++ {
+					again, err := x.gbRead(rs, id)
+					if err != nil {
+						x.violate("reread-differs", "bug %s on %s: read again fails: %v", id[:7], rs.r.Name, err)
+						break
+					}
+					if !eq(opIds(again), v.order[id]) {
+						x.violate("reread-differs", "bug %s on %s: reading the same history again gives %s, first read %s", id[:7], rs.r.Name, sh(opIds(again)), sh(v.order[id]))
+						break
+					}
 				}
 				x.backendCheck(rs, nb, v.order[id])
 			}
